@@ -323,6 +323,16 @@ def rule_format_independent_hooks(ctx):
     decide(ctx, "O17.4", "DateTime verdict is independent of the format", "cutplace.fields.DateTimeFieldFormat.validated_value", cell, min_cells=32)
 
 
+def rule_cells_are_judged_alike(ctx):
+    """O17.8 (round 11; C03's table of validated()): only fixed-width cells are stripped of their padding - the cells
+    of ods, excel and delimited data reach the guards and the hook exactly as stored, so a cell of blanks or with blanks
+    around it gets the same verdict whichever container holds it."""
+    from .c03 import validated_table
+
+    ctx.res.minimum("O17.8", 1)
+    validated_table(ctx, "O17.8")
+
+
 def rule_ods_cell_texts(ctx):
     """O17.5: a cell means the same text whether it is stored as ODS or as delimited text: the ODS reader reconstructs the logical cell text (C15's table)."""
     from .c15 import rule_cell_texts
@@ -343,4 +353,4 @@ def rule_other_containers_cell_texts(ctx):
 
 from .common import rule_module_state  # noqa: E402
 
-RULES = [rule_auto_rows, rule_raw_rows, rule_attribute_availability, rule_format_independent_hooks, rule_ods_cell_texts, rule_other_containers_cell_texts, rule_module_state]
+RULES = [rule_auto_rows, rule_raw_rows, rule_attribute_availability, rule_format_independent_hooks, rule_cells_are_judged_alike, rule_ods_cell_texts, rule_other_containers_cell_texts, rule_module_state]
